@@ -235,6 +235,7 @@ func NewService(name string) *Service {
 		workerCount:   defaultWorkerCount,
 		inChannelSize: defaultInChannelSize,
 	}
+	s.workcond.L = &s.mu
 	s.Mux.Register(s)
 	return s
 }
@@ -663,14 +664,16 @@ func (s *Service) serve(nc Conn) error {
 	// Initialize fields
 	inCh := make(chan *nats.Msg, s.inChannelSize)
 	workCh := make(chan *work, 1)
+	// A callback submitted just before a previous Shutdown may only now reach
+	// the queue, so it is set up under the lock. The condition variable has
+	// no state to reset; it is created together with the service.
 	s.mu.Lock()
 	s.nc = nc
 	s.inCh = inCh
-	s.mu.Unlock()
-	s.workcond = sync.Cond{L: &s.mu}
 	s.workbuf = make([]*work, s.inChannelSize)
 	s.workqueue = s.workbuf[:0]
 	s.rwork = make(map[string]*work, s.inChannelSize)
+	s.mu.Unlock()
 	s.queryTQ = timerqueue.New(s.queryEventExpire, s.queryDuration)
 
 	// Start workers
